@@ -12,6 +12,9 @@ flush may fire at any moment (`bWake true`), so all intervals and all timings ar
 import TboxModel.C10.Progress
 import TboxModel.C10.Locks
 import TboxModel.C10.Spec
+import TboxModel.C10.BlockShape
+import TboxModel.C10.Sched
+import TboxModel.C10.PackRule
 namespace Tbox.C10
 
 /-- **lossless, no duplication, contiguous, acquisition order.**  What has been delivered to the
@@ -150,6 +153,130 @@ theorem C10_cleanup_flushes_needs_quiescence :
       [.acquire 0, .pTake, .cleanupSignal, .bTop, .bWake false, .bGrab, .bPop, .join, .pWrite, .release]).map
       (fun s => (s.joined, s.late, s.delivered, s.acq.map (·.2))) = some (true, true, [], [[1]]) := by decide
 
+/-! ### the trace acceptor's block rule is sound (and its reconstruction certified) -/
+
+/-- **block shape**: in every reachable state the blocks handed to the sink so far (and those still
+queued) are each a whole buffer or end exactly at the end of an append — a partial block is only
+ever produced by the timed / quit hand-over, which needs the producer lock. -/
+theorem C10_blocks_shaped (cfg : Cfg) (prog) (hc : cfg.ok = true) (sts : List Step) (s : State)
+    (he : exec (init cfg prog) sts = some s) :
+    shaped cfg.size (boundsOf (s.acq.map (·.2))) 0 (s.delivered ++ s.full) = true ∧
+    shaped cfg.size (boundsOf (s.acq.map (·.2))) 0 s.delivered = true := by
+  have hi := init_inv cfg prog hc
+  have h := exec_shapeinv prog sts _ s hi (by simp [ShapeInv, blocksOf, init, shaped]) he
+  have hcfg : s.cfg = cfg := exec_cfg _ _ _ he
+  unfold ShapeInv blocksOf at h
+  rw [hcfg] at h
+  exact ⟨h, shaped_prefix _ _ _ _ _ h⟩
+
+/-- **soundness of the acceptor**: the observable of every complete model run (cleanup returned, no
+late append) passes `blockRule` — the very function lean/Driver/C10.lean evaluates on the blocks
+recorded from the real pipe.  A run the driver rejects by this rule is therefore not a run of the model. -/
+theorem C10_observable_accepted (cfg : Cfg) (prog) (hc : cfg.ok = true) (sts : List Step) (s : State)
+    (he : exec (init cfg prog) sts = some s) (hj : s.joined = true) (hl : s.late = false) :
+    blockRule cfg.size (s.acq.map (·.2)) s.delivered = true := by
+  have hw := C10_blocks_wellformed cfg prog hc sts s he
+  have hsh := (C10_blocks_shaped cfg prog hc sts s he).2
+  have hfl := (C10_cleanup_flushes cfg prog hc sts s he hj hl).1
+  simp only [blockRule, Bool.and_eq_true, List.all_eq_true, decide_eq_true_eq, beq_iff_eq]
+  exact ⟨⟨hw, hsh⟩, hfl⟩
+
+/-- **reconstruction certified per run**: whatever the reconstruction `schedule` (the function the
+driver runs on the observed order of appends and block boundaries) returns, the steps it recorded are
+an execution of the model from `init cfg prog` ending in the state it reports; so when it reports no
+error and `delivered = observed blocks`, the observed run IS a run of the model. -/
+theorem C10_reconstruction_certified (cfg : Cfg) (prog) (order) (bounds : List Nat) (mx : Nat) :
+    let a := schedule cfg prog order bounds mx
+    exec (init cfg prog) a.rsteps.reverse = some a.s := by
+  have h := schedule_certified cfg prog order bounds mx
+  have h0 : (schedule cfg prog order bounds mx).s0 = init cfg prog := by
+    simp only [schedule, s0_step, s0_backendUntil, s0_flushAll, s0_appends]
+  simp only at h ⊢
+  rw [h0] at h
+  exact h
+theorem progOf_zip (ord : List (Nat × List UInt8)) : ∀ (gs : List Bool), gs.length = ord.length → ∀ p,
+    progOf ((ord.zip gs).map (fun x => (x.1.1, x.1.2, x.2))) p = (ord.filter (fun a => a.1 == p)).map (·.2) := by
+  induction ord with
+  | nil => intro gs _ p; simp [progOf]
+  | cons a rest ih =>
+    intro gs h p
+    cases gs with
+    | nil => simp at h
+    | cons g gs =>
+      simp only [List.length_cons, Nat.add_right_cancel_iff] at h
+      simp only [List.zip_cons_cons, List.map_cons, progOf, List.filter_cons]
+      by_cases hp : a.1 = p
+      · simp [hp, ih gs h p]
+      · simp [hp, ih gs h p]
+
+/-- **completeness of the model w.r.t. the acceptor's rule** (general, not per run): every observable
+of a complete run that `blockRule` accepts — any order `ord` of appends (thread, bytes) and any block
+sequence with `blockRule cfg.size (appends) blocks` — is produced by some execution of the model
+from `init cfg prog` (`prog` = the per-thread projection of `ord`): cleanup has returned, nothing
+was late, the appends were acquired in the order `ord` and the sink received exactly `blocks`.
+With `C10_observable_accepted` (soundness): `blockRule` is EXACTLY the set of observables of the model. -/
+theorem C10_complete (cfg : Cfg) (hc : cfg.ok = true) (ord : List (Nat × List UInt8)) (blocks : List (List UInt8))
+    (prog : Nat → List (List UInt8)) (hprog : ∀ p, prog p = (ord.filter (fun a => a.1 == p)).map (·.2))
+    (hr : blockRule cfg.size (ord.map (·.2)) blocks = true) :
+    ∃ sts s, exec (init cfg prog) sts = some s ∧ s.joined = true ∧ s.late = false ∧
+      s.delivered = blocks ∧ s.acq = ord := by
+  have hok := (Cfg.ok_iff cfg).mp hc
+  obtain ⟨gs, hg1, hg2⟩ := blockRule_pack cfg.size hok.1 _ _ hr
+  simp only [List.length_map] at hg1
+  obtain ⟨s, ⟨sts, hex⟩, hj, hl, hd, ha⟩ := realize cfg hok.2.1 hok.1
+    ((ord.zip gs).map (fun x => (x.1.1, x.1.2, x.2))) prog [] [] []
+    (fun p => by rw [hprog p, progOf_zip ord gs hg1 p]) (by simp only [List.length_nil]; omega)
+  have hinit : Q cfg prog (optOf []) none [] [] = init cfg prog := by simp [Q, init, optOf, currCount]
+  rw [hinit] at hex
+  refine ⟨sts, s, hex, hj, hl, ?_, ?_⟩
+  · rw [hd, hg2]
+    simp only [List.nil_append, List.map_map]
+    congr 1
+    clear hg2 hr hprog hex hd ha
+    induction ord generalizing gs with
+    | nil => simp
+    | cons a rest ih => cases gs with
+      | nil => simp at hg1
+      | cons g gs => simp at hg1; simp [ih gs hg1]
+  · rw [ha]
+    simp only [List.nil_append, List.map_map]
+    clear hg2 hr hprog hex hd ha
+    induction ord generalizing gs with
+    | nil => simp
+    | cons a rest ih => cases gs with
+      | nil => simp at hg1
+      | cons g gs => simp at hg1; simp [ih gs hg1]
+
+
+/-! ### several lifecycles on one object -/
+
+/-- **re-initialisation starts fresh**: after a cleanup that began with no append in flight, what
+`cleanup()` leaves behind plus a new `initialize(cfg')` is exactly the initial state of a new
+pipe — so every theorem above holds for each `initialize … cleanup` lifecycle of one object. -/
+theorem C10_reinit_fresh (cfg : Cfg) (prog) (hc : cfg.ok = true) (sts : List Step) (s : State)
+    (he : exec (init cfg prog) sts = some s) (hj : s.joined = true) (hl : s.late = false)
+    (cfg' : Cfg) (prog') : reinit s cfg' prog' = init cfg' prog' := by
+  obtain ⟨_, hf, _, ho⟩ := C10_cleanup_flushes cfg prog hc sts s he hj hl
+  simp [reinit, init, hf, ho]
+
+/-! ### appends concurrent with cleanup (outside the statement; documented) -/
+
+/-- a producer blocked on back-pressure after the back-end thread has exited is stuck for ever:
+no step of the model is enabled any more -/
+theorem stuck_after_exit (s : State) (o : Owner) (ho : s.owner = some o) (hb : o.blocked = true)
+    (hf : s.free = 0) (hx : s.bpc = .exited) (hs : s.stop = true) (hj : s.joined = true) :
+    ∀ st, valid s st = false := by
+  intro st
+  cases st <;> simp [valid, ho, hb, hf, hx, hs, hj]
+
+/-- such a state is reachable when an append is in flight while cleanup begins (1-byte buffer,
+one buffer, append of 2 bytes): `cleanup()` returns, the producer never does. -/
+theorem C10_late_append_can_block_forever :
+    (exec (init ⟨1, 1, 1, 1⟩ (fun p => if p = 0 then [[1, 2]] else []))
+      [.acquire 0, .pTake, .cleanupSignal, .bTop, .bWake false, .bGrab, .bPop, .join, .pWrite, .pTake]).map
+      (fun s => (s.owner.map (·.blocked), s.free, s.bpc, s.stop, s.joined, s.late)) =
+      some (some true, 0, .exited, true, true, true) := by decide
+
 /-! ### non-vacuity: concrete interleavings satisfying the hypotheses -/
 
 def cfg2 : Cfg := { size := 2, minN := 1, maxN := 1, interval := 1 }
@@ -172,6 +299,11 @@ example : (exec (init cfg2 prog2) demo).map (fun s => (s.delivered, s.joined, s.
 /-- a blocked producer with no free buffer is reachable (hypotheses of part 3 of C10_buffers_bounded) -/
 example : (exec (init cfg2 prog2) (demo.take 4)).map
     (fun s => (s.owner.map (·.blocked), s.free, s.bpc != .exited)) = some (some true, 0, true) := by decide
+/-- the demo run passes the acceptor's rule, and the reconstruction reproduces it -/
+example : blockRule 2 [[1, 2, 3], [9]] [[1, 2], [3, 9]] = true := by decide
+example : blockRule 2 [[1, 2, 3], [9]] [[1], [2, 3], [9]] = false := by decide   -- partial block inside an append
+example : (schedule cfg2 prog2 [(0, [1, 2, 3]), (1, [9])] [2, 4] 1).err.isNone = true := by decide
+example : (schedule cfg2 prog2 [(0, [1, 2, 3]), (1, [9])] [2, 4] 1).s.delivered = [[1, 2], [3, 9]] := by decide
 /-- the timed hand-over is refused while an append is in flight (try_lock fails) -/
 example : (exec (init cfg2 prog2) [.acquire 0, .pTake, .bTop, .bWake true, .bGrab]).map
     (fun s => (s.curr, s.full)) = some (some [], []) := by decide
